@@ -1,4 +1,136 @@
-/- oracle_c03 — placeholder driver (replaced when the C03 model is added). -/
+/-
+  oracle_c03 — line-protocol driver for the C03 model (Model/Sig.lean) and specs (Spec/Ecdsa, Bip340,
+  TapTweak, Rfc6979). Byte strings in hex ("-" = empty); numbers are big-endian byte strings.
+    ecdsa <pk> <sig> <msg>            -> <model 0|1> <code 1|0|-1|-2> <spec 0|1>
+    ecdsam <pk> <sig> <msg>           -> <model 0|1> <code>            (model only, cheaper)
+    pub <pk>                          -> m <x> <y> | m none ; s <x> <y> | s none   (one line)
+    psig <sig>                        -> m <r> <s> <len> | m none ; s <r> <s> | s none
+    schnorr <pk> <sig> <msg>          -> <model 0|1> <spec 0|1>
+    tweak <qx> <base> <hash> <0|1>    -> <model 0|1> <spec 0|1>
+    sign <sec> <msg> <nonce>          -> ok <r> <s> <recid> <der|panic> <strict 0|1> <lowS 0|1> | none
+    signrfc <priv> <hash>             -> ok <r> <s> <nonce> | none
+    nonce <prv> <msg> <counter>       -> <model> <spec candidate>
+    hmac <key> <data>                 -> <model hmacGo> <spec hmac>
+    recover <r> <s> <h> <recid>       -> ok <x> <y> | inf | none
+    ssign <m> <sk> <aux>              -> m <sig|none> s <sig|none>
+    legacy ecdsa|schnorr|tweak …      -> the model of the pinned snapshot (before the fix: commits)
+-/
+import GocoinV.Model.Sig
+import GocoinV.Spec.Ecdsa
+import GocoinV.Spec.Bip340
+import GocoinV.Spec.TapTweak
+import GocoinV.Spec.Rfc6979
+import GocoinV.Base.Sha256
 import GocoinV.Base.Proto
-open GocoinV
-def main : IO Unit := Proto.serve () (fun _ _ => ((), "bad-op"))
+open GocoinV GocoinV.Model
+
+def b (x : Bool) : String := Proto.boolStr x
+def nat32 (v : Nat) : String := Hex.encode (beBytes 32 v)
+def natHex (v : Nat) : String := Hex.encode (match Sig.natBytes v with | [] => [0] | l => l)
+
+def optB : Option Bool → String
+  | some x => b x
+  | none => "panic"
+
+def step (_ : Unit) (toks : List String) : Unit × String :=
+  let bad := ((), "bad-op")
+  match toks with
+  | ["ecdsa", pk, sg, msg] =>
+    match Hex.decode pk, Hex.decode sg, Hex.decode msg with
+    | some pk, some sg, some msg =>
+      ((), s!"{b (Sig.ecdsaVerify true pk sg msg)} {Sig.ecdsaVerifyCode true pk sg msg} {b (Spec.Ecdsa.verify pk sg msg)}")
+    | _, _, _ => bad
+  | ["ecdsam", pk, sg, msg] =>
+    match Hex.decode pk, Hex.decode sg, Hex.decode msg with
+    | some pk, some sg, some msg =>
+      ((), s!"{b (Sig.ecdsaVerify true pk sg msg)} {Sig.ecdsaVerifyCode true pk sg msg}")
+    | _, _, _ => bad
+  | ["pub", pk] =>
+    match Hex.decode pk with
+    | some pk =>
+      let m := match Sig.parsePubkey true pk with
+        | some (x, y) => s!"m {nat32 x} {nat32 y}" | none => "m none"
+      let s := match Secp.parsePubkey pk with
+        | some (x, y) => s!"s {nat32 x} {nat32 y}" | none => "s none"
+      ((), s!"{m} ; {s}")
+    | _ => bad
+  | ["psig", sg] =>
+    match Hex.decode sg with
+    | some sg =>
+      let m := match Sig.parseBytes sg with
+        | some (r, s, l) => s!"m {natHex r} {natHex s} {l}" | none => "m none"
+      let s := match Spec.Ecdsa.decodeSig sg with
+        | some (r, s) => s!"s {natHex r} {natHex s}" | none => "s none"
+      ((), s!"{m} ; {s} ; {b (Spec.Ecdsa.isStrictDER sg)}")
+    | _ => bad
+  | ["schnorr", pk, sg, msg] =>
+    match Hex.decode pk, Hex.decode sg, Hex.decode msg with
+    | some pk, some sg, some msg =>
+      ((), s!"{b (Sig.schnorrVerify sha256 pk sg msg)} {b (Spec.Bip340.verify sha256 pk sg msg)}")
+    | _, _, _ => bad
+  | ["tweak", qx, base, h, par] =>
+    match Hex.decode qx, Hex.decode base, Hex.decode h with
+    | some qx, some base, some h =>
+      if par ≠ "0" ∧ par ≠ "1" then bad else
+      ((), s!"{b (Sig.checkPayToContract qx base h (par == "1"))} {b (Spec.TapTweak.check qx base h (par == "1"))}")
+    | _, _, _ => bad
+  | ["sign", sec, msg, k] =>
+    match Hex.decode sec, Hex.decode msg, Hex.decode k with
+    | some sec, some msg, some k =>
+      match Sig.sign (beVal sec) (beVal msg) (beVal k) with
+      | none => ((), "none")
+      | some (r, s, recid) =>
+        match Sig.sigBytes r s with
+        | none => ((), s!"ok {nat32 r} {nat32 s} {recid} panic 0 {b (Sig.isLowS s)}")
+        | some der => ((), s!"ok {nat32 r} {nat32 s} {recid} {Hex.encode der} {b (Spec.Ecdsa.isStrictDER der)} {b (Sig.isLowS s)}")
+    | _, _, _ => bad
+  | ["signrfc", priv, h] =>
+    match Hex.decode priv, Hex.decode h with
+    | some priv, some h =>
+      match Sig.ecdsaSignRfc sha256 priv h with
+      | none => ((), "none")
+      | some (r, s) => ((), s!"ok {nat32 r} {nat32 s} {Hex.encode (Sig.rfc6979Nonce sha256 priv h 0)}")
+    | _, _ => bad
+  | ["nonce", prv, msg, c] =>
+    match Hex.decode prv, Hex.decode msg, c.toNat? with
+    | some prv, some msg, some c =>
+      if c > 64 then bad else
+      ((), s!"{Hex.encode (Sig.rfc6979Nonce sha256 prv msg c)} {Hex.encode (Spec.Rfc6979.candidate sha256 prv msg c)}")
+    | _, _, _ => bad
+  | ["hmac", key, data] =>
+    match Hex.decode key, Hex.decode data with
+    | some key, some data =>
+      ((), s!"{Hex.encode (Sig.hmacGo sha256 key data)} {Hex.encode (C03.hmac sha256 key data)}")
+    | _, _ => bad
+  | ["recover", r, s, h, recid] =>
+    match Hex.decode r, Hex.decode s, Hex.decode h, recid.toNat? with
+    | some r, some s, some h, some recid =>
+      if recid > 3 then bad else
+      match Sig.recoverPublicKey (beVal r) (beVal s) h recid with
+      | none => ((), "none")
+      | some none => ((), "inf")
+      | some (some (x, y)) => ((), s!"ok {nat32 x} {nat32 y}")
+    | _, _, _, _ => bad
+  | ["ssign", m, sk, a] =>
+    match Hex.decode m, Hex.decode sk, Hex.decode a with
+    | some m, some sk, some a =>
+      let o := fun (x : Option Bytes) => match x with | some s => Hex.encode s | none => "none"
+      ((), s!"m {o (Sig.schnorrSign sha256 m sk a)} s {o (Spec.Bip340.sign sha256 m sk a)}")
+    | _, _, _ => bad
+  | ["legacy", "ecdsa", pk, sg, msg] =>
+    match Hex.decode pk, Hex.decode sg, Hex.decode msg with
+    | some pk, some sg, some msg => ((), s!"{b (Sig.ecdsaVerify false pk sg msg)}")
+    | _, _, _ => bad
+  | ["legacy", "schnorr", pk, sg, msg] =>
+    match Hex.decode pk, Hex.decode sg, Hex.decode msg with
+    | some pk, some sg, some msg => ((), optB (Sig.schnorrVerify? false sha256 pk sg msg))
+    | _, _, _ => bad
+  | ["legacy", "tweak", qx, base, h, par] =>
+    match Hex.decode qx, Hex.decode base, Hex.decode h with
+    | some qx, some base, some h =>
+      if par ≠ "0" ∧ par ≠ "1" then bad else
+      ((), optB (Sig.checkPayToContract? false qx base h (par == "1")))
+    | _, _, _ => bad
+  | _ => bad
+
+def main : IO Unit := Proto.serve () step
